@@ -52,6 +52,11 @@ func (f *fileEvent) OnEvent(progress *PackageProgress) {
 			curPack.CurrentSize, curPack.FileSize, curPack.Offset)
 	case ProgressStageSupplementary:
 		curPack := extension.CurrentPackage
+		if curPack == nil {
+			// 还没有收到任何文件码流就收到了0x1212
+			str += " 文件补传传输中 还没有收到文件码流"
+			break
+		}
 		str += fmt.Sprintf(" 文件补传传输中[%s] 进度[%d/%d] 偏移[%d]", curPack.FileName,
 			curPack.CurrentSize, curPack.FileSize, curPack.Offset)
 	case ProgressStageStreamDataComplete:
